@@ -518,3 +518,7 @@ def run(prog, rep, tier, snap):
     rep.rule("R03.5", "NULL-terminated stream lists: every argument in front of the terminator is non-NULL (shared with C03)", 4)
     rep.call(c03.r03_5, prog, rep)
 READY = True
+
+# texts brought up to date with the rules added in the last rounds
+LEVEL_TEXT = LEVEL_TEXT + ' The decision table treats a candidate that is peeked anew as any event: delivering it without comparing it with the pending exception is a row of its own.'
+
